@@ -54,7 +54,7 @@ Q_THOROUGH = sorted(set(Q_QUICK) | {
     for r in (0, 1, 2, 3, 7, 8, 56, 58, 60, 63)
     for b in [64 * (l - 1) + r if r else 64 * l]
     if b > 0
-} | {(250, 4), (384, 6), (512, 8), (66, 2), (4, 1), (16, 1), (32, 1), (536, 9)})
+} | {(250, 4), (384, 6), (512, 8), (66, 2), (4, 1), (16, 1), (32, 1), (536, 9), (1024, 16), (1100, 18)})
 
 
 def sysroot():
@@ -104,7 +104,12 @@ def build_facts(config="all", repo=REPO, verbose=True):
     lock = open(os.path.join(CACHE, "lock"), "w")
     fcntl.flock(lock, fcntl.LOCK_EX)
     try:
-        if os.path.exists(os.path.join(out, "ruint.json")) and os.path.exists(os.path.join(out, "ok")):
+        if os.path.exists(os.path.join(out, "ruint.json")) and os.path.exists(os.path.join(out, "ruint_macro.json")) \
+                and os.path.exists(os.path.join(out, "ok")):
+            try:
+                os.utime(out, None)      # eviction is least-recently-USED, not least-recently-built
+            except OSError:
+                pass
             return out, {"cached": True, "tree": th, "config": config}
         t0 = time.time()
         # drop stale fact dirs of the same configuration, but keep the few most recent ones: concurrent runs on
@@ -137,7 +142,8 @@ def build_facts(config="all", repo=REPO, verbose=True):
         })
         cmd = ["cargo", "+nightly", "check", "--offline", "--lib", "-p", "ruint"] + feat
         p = subprocess.run(cmd, cwd=repo, env=env, stdout=subprocess.PIPE, stderr=subprocess.STDOUT, text=True)
-        if p.returncode != 0 or not os.path.exists(os.path.join(out, "ruint.json")):
+        if p.returncode != 0 or not os.path.exists(os.path.join(out, "ruint.json")) \
+                or not os.path.exists(os.path.join(out, "ruint_macro.json")):
             sys.stderr.write(p.stdout[-6000:])
             shutil.rmtree(out, ignore_errors=True)
             raise RuntimeError("mirfacts: driver run failed for config %s (exit %d)" % (config, p.returncode))
@@ -150,7 +156,7 @@ def build_facts(config="all", repo=REPO, verbose=True):
         lock.close()
 
 
-KEEP_FACT_DIRS = 12
+KEEP_FACT_DIRS = 24
 
 
 def load(config="all", repo=REPO):
@@ -165,7 +171,7 @@ def load(config="all", repo=REPO):
                         res[name] = json.load(fh)
         except (OSError, ValueError):
             res = {}
-        if "ruint" in res:
+        if "ruint" in res and "ruint_macro" in res:
             res["_info"] = info
             return res
         # the directory vanished between build and read (another run evicted it): rebuild
